@@ -20,10 +20,17 @@
      v_fr     r_fp      the register fp, relative to v_stk: 0 = the header of the running
                         activation (it lies just below v_stk), h > 0 = the header MARK pushed when
                         v_stk had h - 5 slots (its return-ip slot is the h-th slot from the bottom)
-              r_exc     machine->exception (set by a faulting handler)
+              r_exc     machine->exception (set by a faulting handler).  MODELLING CHOICE: the real
+                        register keeps the number of the last exception for ever; it is READ only by
+                        PUSH_EXCEPT and UNHANDLED_EXCEPTION, which run between a dispatch and the next
+                        RET, i.e. they always see the value the last raise wrote.  So that a call
+                        that handled an exception leaves the modelled registers as it found them, the
+                        model saves r_exc in the frame at CALL and restores it at RET (not at
+                        RETHROW, which re-raises the current exception): every read sees the same
+                        value as on the real machine.
               r_frames  the suspended activations, innermost first: for each its return ip, its
-                        saved fp and its part of the stack (what v_stk was below the header when
-                        CALL entered the callee).
+                        saved fp, its part of the stack (what v_stk was below the header when
+                        CALL entered the callee) and r_exc at the CALL.
    The real flat stack is  v_stk ++ [5 header words] ++ below_1 ++ [5 header words] ++ below_2 …;
    `flat_len` is its length (real sp + 1), real fp = base + r_fp - 1 and real pp = base - 1 with
    base = the length of everything below v_stk.  gp (written by CALL, saved by MARK, restored by
@@ -60,6 +67,9 @@
      vm_execute_rethrow        vm_execute_ret, then running = VM_EXCEPTION
      vm_execute_build_in       print only: prints the payload of the top, replaces it by a fresh
                                cell with the same payload
+     vm_execute_clear_stack n  (first instruction of a catch clause) fp = pp, sp = fp + n: pending MARK
+                               headers, temporaries and locals are dropped, the n parameters stay
+     vm_execute_push_except    push a fresh cell holding machine->exception
      vm_execute_halt           the top of the stack is the program's result
      vm_execute_unhandled_exception   the program ends with machine->exception
    The loop of vm_execute: after a handler that set VM_EXCEPTION, ip = exception_tab_search(ip-1)
@@ -76,7 +86,7 @@ From NV Require Import Gen.Opcodes Verifier.Effect Src.Syntax Src.Eval.
 Import ListNotations.
 Local Open Scope Z_scope.
 
-Record frame := { f_ret : nat; f_fp : nat; f_below : list nat }.
+Record frame := { f_ret : nat; f_fp : nat; f_below : list nat; f_exc : option exn }.
 
 Record fregs := { r_fp : nat; r_exc : option exn; r_frames : list frame }.
 
@@ -159,23 +169,34 @@ Fixpoint hsearch (tab : list (nat * nat)) (ip : nat) (cur : nat) : nat :=
   end.
 
 (* vm_execute_ret on the modelled state: Some (return ip, stack, registers) *)
-Definition do_ret (stk : list nat) (fr : fregs) : option (nat * list nat * fregs) :=
-  match stk with
-  | res :: _ =>
-    if Nat.eqb (r_fp fr) 0 then
-      match r_frames fr with
-      | f :: fs => Some (f_ret f, res :: f_below f,
-                         {| r_fp := f_fp f; r_exc := r_exc fr; r_frames := fs |})
-      | [] => None
-      end
-    else if Nat.ltb (r_fp fr) (length stk) then
-      match skipn (length stk - r_fp fr) stk with
-      | ret :: fpo :: _ :: _ :: _ :: below => Some (ret, res :: below, set_fp fr fpo)
-      | _ => None
-      end
-    else None
-  | [] => None
+(* exception numbers of include/vm.h (except_no), as machine->exception holds them *)
+Definition exn_no (e : exn) : Z :=
+  match e with
+  | ExDivision => 1 | ExArrSize => 2 | ExIndexOob => 3 | ExInvalid => 4 | ExOverflow => 5
+  | ExUnderflow => 6 | ExInexact => 7 | ExNil => 8 | ExFfi => 9
   end.
+
+(* vm_execute_ret on the modelled state: Some (return ip, stack, registers).  The result is
+   stack[sp]; with nothing above the header (a RETHROW of a function without parameters right after
+   CLEAR_STACK) that is the header's top word, the return ip *)
+Definition do_ret (stk : list nat) (fr : fregs) : option (nat * list nat * fregs) :=
+  if Nat.eqb (r_fp fr) 0 then
+    match r_frames fr with
+    | f :: fs => Some (f_ret f, match stk with res :: _ => res | [] => f_ret f end :: f_below f,
+                       {| r_fp := f_fp f; r_exc := f_exc f; r_frames := fs |})
+    | [] => None
+    end
+  else
+    match stk with
+    | res :: _ =>
+      if Nat.ltb (r_fp fr) (length stk) then
+        match skipn (length stk - r_fp fr) stk with
+        | ret :: fpo :: _ :: _ :: _ :: below => Some (ret, res :: below, set_fp fr fpo)
+        | _ => None
+        end
+      else None
+    | [] => None
+    end.
 
 Definition step (X : xinfo) (prog : list rinstr) (s : vstate) : sres :=
   match nth_error prog (v_ip s) with
@@ -290,8 +311,8 @@ Definition step (X : xinfo) (prog : list rinstr) (s : vstate) : sres :=
                 | ret :: fpo :: _ :: _ :: _ :: below =>
                     SNext (mkst target (firstn d rest0) h o
                              {| r_fp := 0; r_exc := r_exc fr;
-                                r_frames := {| f_ret := ret; f_fp := fpo; f_below := below |}
-                                            :: r_frames fr |})
+                                r_frames := {| f_ret := ret; f_fp := fpo; f_below := below;
+                                                f_exc := r_exc fr |} :: r_frames fr |})
                 | _ => SStuck end
               else SStuck
             | None => SStuck end
@@ -303,7 +324,9 @@ Definition step (X : xinfo) (prog : list rinstr) (s : vstate) : sres :=
         | None => SStuck end
     | BYTECODE_RETHROW =>
         match do_ret stk fr with
-        | Some (ret, stk', fr') => SNext (mkst (hsearch (x_tab X) (Nat.pred ret) 0) stk' h o fr')
+        | Some (ret, stk', fr') =>
+            SNext (mkst (hsearch (x_tab X) (Nat.pred ret) 0) stk' h o
+                        {| r_fp := r_fp fr'; r_exc := r_exc fr; r_frames := r_frames fr' |})
         | None => SStuck end
     | BYTECODE_BUILD_IN =>
         if r_w0 i =? lib_math_print then
@@ -314,6 +337,15 @@ Definition step (X : xinfo) (prog : list rinstr) (s : vstate) : sres :=
             | None => SStuck end
           | _ => SStuck end
         else SStuck
+    | BYTECODE_CLEAR_STACK =>
+        match zn (r_w0 i) with
+        | Some n => if Nat.leb n (length stk)
+                    then SNext (mkst next (skipn (length stk - n) stk) h o (set_fp fr 0))
+                    else SStuck
+        | None => SStuck end
+    | BYTECODE_PUSH_EXCEPT =>
+        SNext (mkst next (length h :: stk)
+                    (h ++ [match r_exc fr with Some e => exn_no e | None => 0 end]) o fr)
     | BYTECODE_HALT =>
         match stk with
         | a :: _ => SRet a s
